@@ -91,8 +91,8 @@ b("B16", TYPES,
   "match with one arm rewritten as if")
 # 17. next_child: the incremented index in its own local
 b("B17", LMDB,
-  "\t\tderiv_idx += 1;\n\t\tlet mut batch = self.batch(keychain_mask)?;\n\t\tbatch.save_child_index(&parent_key_id, deriv_idx)?;",
-  "\t\tlet next_idx = deriv_idx + 1;\n\t\tlet mut batch = self.batch(keychain_mask)?;\n\t\tbatch.save_child_index(&parent_key_id, next_idx)?;",
+  "\t\tderiv_idx += 1;\n\t\tlet mut batch = self.batch(keychain_mask)?;\n\t\tbatch.save_child_index(parent_key_id, deriv_idx)?;",
+  "\t\tlet next_idx = deriv_idx + 1;\n\t\tlet mut batch = self.batch(keychain_mask)?;\n\t\tbatch.save_child_index(parent_key_id, next_idx)?;",
   "incremented index bound to a new local")
 # 18. XOR loop variable renamed, loop split in two
 b("B18", LMDB,
@@ -106,8 +106,8 @@ b("B19", UPD,
   "rollback loop: variable renamed, second if becomes else-if")
 # 20. check_ttl with an early return for 'no ttl'
 b("B20", OWNER,
-  "\tlet last_confirmed_height = w.last_confirmed_height()?;\n\tif slate.ttl_cutoff_height != 0 {\n\t\tif last_confirmed_height >= slate.ttl_cutoff_height {\n\t\t\treturn Err(Error::TransactionExpired);\n\t\t}\n\t}\n\tOk(())",
-  "\tif slate.ttl_cutoff_height == 0 {\n\t\treturn Ok(());\n\t}\n\tlet last_confirmed_height = w.last_confirmed_height()?;\n\tif last_confirmed_height >= slate.ttl_cutoff_height {\n\t\treturn Err(Error::TransactionExpired);\n\t}\n\tOk(())",
+  "\tlet last_confirmed_height =\n\t\tstd::cmp::max(w.last_confirmed_height()?, w.last_scanned_block()?.height);\n\tif slate.ttl_cutoff_height != 0 {\n\t\tif last_confirmed_height >= slate.ttl_cutoff_height {\n\t\t\treturn Err(Error::TransactionExpired);\n\t\t}\n\t}\n\tOk(())",
+  "\tif slate.ttl_cutoff_height == 0 {\n\t\treturn Ok(());\n\t}\n\tlet last_confirmed_height =\n\t\tstd::cmp::max(w.last_confirmed_height()?, w.last_scanned_block()?.height);\n\tif last_confirmed_height >= slate.ttl_cutoff_height {\n\t\treturn Err(Error::TransactionExpired);\n\t}\n\tOk(())",
   "early return for slates without a ttl")
 # 21. rename the snapshot variable of update_wallet_state's callers: whole-file rename in owner.rs of `tx_vec`? (kept small)
 b("B21", TX, None, None, "rename tx_vec -> entries in tx.rs (whole file)")
@@ -143,7 +143,7 @@ b("B33", OWNER,
   "expiry walk rewritten in early-continue style")
 
 SCAN = "libwallet/src/internal/scan.rs"
-b("B34", SCAN, "\t\t\tacct_index += 1;", "\t\t\tacct_index = acct_index + 1;", "counter increment written out")
+b("B34", SCAN, "\t\t\tkeys::set_acct_path(&mut **w, keychain_mask, &label, path)?;\n\t\t\tacct_index += 1;", "\t\t\tkeys::set_acct_path(&mut **w, keychain_mask, &label, path)?;\n\t\t\tacct_index = acct_index + 1;", "counter increment written out")
 b("B35", SCAN, "\t\t\tlast_retrieved_return_index = last_retrieved_index;\n\t\t\tbreak;\n\t\t}\n\t\tstart_index = last_retrieved_index + 1;", "\t\t\tlast_retrieved_return_index = last_retrieved_index;\n\t\t\tbreak;\n\t\t}\n\t\tstart_index = 1 + last_retrieved_index;", "addition operands swapped")
 b("B36", "libwallet/src/slate.rs", "\t\tif fee > tx.fee() {", "\t\tif tx.fee() < fee {", "minimum-fee comparison mirrored")
 b("B37", UPD, "\t\tif out.status == OutputStatus::Unconfirmed\n\t\t\t&& out.height > 0\n\t\t\t&& out.height < height - 50\n\t\t\t&& out.is_coinbase\n", "\t\tif out.is_coinbase\n\t\t\t&& out.status == OutputStatus::Unconfirmed\n\t\t\t&& out.height > 0\n\t\t\t&& out.height < height - 50\n", "conjuncts reordered")
